@@ -127,6 +127,12 @@ def gen_chain(o, ref):
         return v
     if ref.edges and k < 0.32:
         return [["scope", "global"], ["edge", idx(o, 3, forms=("int", "list", "all", "range"))]]
+    if ref.edges and ref.kind == "network" and k < 0.42:
+        # a synapse type asked of a *view* (net.cell([0, 1]).TestSynapse): the synapses of that type among those in view
+        v = [["cell", idx(o, 2, forms=("int", "list", "list"))], ["syn", o.choice([s_["name"] for s_ in ref.syns])]]
+        if o.random() < 0.3:
+            v.append(["edge", idx(o, 3, forms=("int", "list", "all"))])
+        return v
     v = gen_node_view(o, ref)
     if o.random() < 0.2:
         v = v + [["select_nodes", idx(o, 3, forms=("int", "list", "all"))]]
